@@ -77,6 +77,7 @@ structure Caller where
   records : Nat := 0                    -- ghost: RecordPut events of its call record
   crecords : Nat := 0                   -- ghost: RecordPut events of cancel records
   cancels : Nat := 0                    -- ghost: handleCancel invocations
+  cfail : Bool := false                 -- ghost: the call ended in compressData, before its frame was encoded: no send, no record
 deriving Repr, Inhabited
 
 /-- program counter of `Client.Notify` / `dispatch.Notify` -/
@@ -282,6 +283,7 @@ inductive Act where
   | cNew (c : Nat)
   | cAdd (c : Nat)
   | cEnc (c : Nat) (fits : Bool)
+  | cCompressFail (c : Nat)          -- compressData of the argument failed: return with only RemoveCall deferred
   | cHandDone (c : Nat) | cHandCtx (c : Nat)          -- hand-off select: doneCh / ctx arm (send arm: wRecv)
   | cSel1Err (c : Nat) | cSel1Ctx (c : Nat) | cSel1Stop (c : Nat)
   | cSel2Res (c : Nat) | cSel2Ctx (c : Nat) | cSel2Stop (c : Nat)
@@ -367,6 +369,12 @@ def step (s : St) : Act → Option St
         let (s', x) := failedSend s .call cl.seq c
         some (setCaller s' c { cl with pc := .sel1 x })
     else none
+  | .cCompressFail c =>
+    -- `compressData(c.ctype, c.arg)` returned an error: `Call` returns it at once.  Only `RemoveCall` is
+    -- deferred at this point: no frame is encoded, no send is allocated, and the deferred
+    -- `record.RecordAndFinish` has not been registered yet (the `.fin` step is skipped: no record)
+    let cl := s.callers c
+    if cl.pc = .enc then some (setCaller s c { cl with pc := .rm (.err .toobig), cfail := true }) else none
   | .cHandDone c =>
     let cl := s.callers c
     match cl.pc with
